@@ -27,6 +27,7 @@ func checkC06(p *Prog, r *Report) {
 	// field capacity must fall back from pore volume when the table falls: the restore/recompute covers every layer (shared with C15.R4)
 	c15History(p, r, "C06.R5")
 	domainRule(p, r, "C06.R6", "the functions of the run path", nil, 180)
+	solarClamps(p, r, "C06.R7")
 	r.Note("not decided: NaN/Inf created inside the functions excluded by name (solar geometry, photosynthesis light response, crop development, residue tables), overflow to infinity of finite operands, NaN read from input files, and bounds over multi-day histories")
 }
 
@@ -59,6 +60,8 @@ func c06Evaporation(p *Prog, r *Report) {
 	want := cellP("GlobalVarsMain.WMIN", k).Scale(ratFrac(1, 3)).Mul(cellP("GlobalVarsMain.DZ.Index"))
 	okB := stripVersions(floorE.Val).Equal(want) && k.Equal(PAtom(L.Var))
 	r.Ob("limit-floor", p.Pos(floorE.Pos), okB, fmt.Sprintf("LIMIT[%s] floored at %s (must be WMIN[k]/3 · DZ)", k, floorE.Val))
+	gs := inLoopGuards(floorE, L)
+	r.Ob("limit-floor:every-layer", p.Pos(floorE.Pos), len(gs) == 1, fmt.Sprintf("the floor is applied under its own comparison alone (%d condition(s): %s) — a further condition exempts some layer, e.g. the last one, from the dryness limit", len(gs), clip(guardKeysOf(gs), 160)))
 	// loop covers every layer
 	lo, hi, unit, why := loopBounds(x, L)
 	r.Ob("all-layers", p.Pos(L.Stmt.Pos()), why == "" && unit && lo.IsZero() && stripVersions(hi).Equal(cellP("GlobalVarsMain.N").Sub(PInt(1))), fmt.Sprintf("evaporation cascade over layers %s..%s (must be 0..N−1)", polyOr(lo), polyOr(hi)))
